@@ -1,6 +1,38 @@
--- shard 11 of the closeness / tick-gap sweep (C06 (c), (e)): |tick| in [360448, 393216)
+-- shard 11 of the closeness / tick-gap sweep (C06 (c), (e)): |tick| in [360448, 393216), 16 blocks of 2^11
 import Proofs.Lemmas.ClosePred
 namespace Demeter.TickClose
 set_option maxRecDepth 100000 in
-theorem close_shard_11 : chkN closeSweepPred 360448 shardBits = true := by decide +kernel
+theorem close_blk_360448 : chkN closeSweepPred 360448 11 = true := by decide +kernel
+set_option maxRecDepth 100000 in
+theorem close_blk_362496 : chkN closeSweepPred 362496 11 = true := by decide +kernel
+set_option maxRecDepth 100000 in
+theorem close_blk_364544 : chkN closeSweepPred 364544 11 = true := by decide +kernel
+set_option maxRecDepth 100000 in
+theorem close_blk_366592 : chkN closeSweepPred 366592 11 = true := by decide +kernel
+set_option maxRecDepth 100000 in
+theorem close_blk_368640 : chkN closeSweepPred 368640 11 = true := by decide +kernel
+set_option maxRecDepth 100000 in
+theorem close_blk_370688 : chkN closeSweepPred 370688 11 = true := by decide +kernel
+set_option maxRecDepth 100000 in
+theorem close_blk_372736 : chkN closeSweepPred 372736 11 = true := by decide +kernel
+set_option maxRecDepth 100000 in
+theorem close_blk_374784 : chkN closeSweepPred 374784 11 = true := by decide +kernel
+set_option maxRecDepth 100000 in
+theorem close_blk_376832 : chkN closeSweepPred 376832 11 = true := by decide +kernel
+set_option maxRecDepth 100000 in
+theorem close_blk_378880 : chkN closeSweepPred 378880 11 = true := by decide +kernel
+set_option maxRecDepth 100000 in
+theorem close_blk_380928 : chkN closeSweepPred 380928 11 = true := by decide +kernel
+set_option maxRecDepth 100000 in
+theorem close_blk_382976 : chkN closeSweepPred 382976 11 = true := by decide +kernel
+set_option maxRecDepth 100000 in
+theorem close_blk_385024 : chkN closeSweepPred 385024 11 = true := by decide +kernel
+set_option maxRecDepth 100000 in
+theorem close_blk_387072 : chkN closeSweepPred 387072 11 = true := by decide +kernel
+set_option maxRecDepth 100000 in
+theorem close_blk_389120 : chkN closeSweepPred 389120 11 = true := by decide +kernel
+set_option maxRecDepth 100000 in
+theorem close_blk_391168 : chkN closeSweepPred 391168 11 = true := by decide +kernel
+theorem close_shard_11 : chkN closeSweepPred 360448 shardBits = true :=
+  (chkN_join _ 360448 14 (chkN_join _ 360448 13 (chkN_join _ 360448 12 (chkN_join _ 360448 11 close_blk_360448 close_blk_362496) (chkN_join _ 364544 11 close_blk_364544 close_blk_366592)) (chkN_join _ 368640 12 (chkN_join _ 368640 11 close_blk_368640 close_blk_370688) (chkN_join _ 372736 11 close_blk_372736 close_blk_374784))) (chkN_join _ 376832 13 (chkN_join _ 376832 12 (chkN_join _ 376832 11 close_blk_376832 close_blk_378880) (chkN_join _ 380928 11 close_blk_380928 close_blk_382976)) (chkN_join _ 385024 12 (chkN_join _ 385024 11 close_blk_385024 close_blk_387072) (chkN_join _ 389120 11 close_blk_389120 close_blk_391168))))
 end Demeter.TickClose
